@@ -146,7 +146,11 @@ class C01(WrapHarness):
         out.append(dict(base, algo='O', sep='U', gen='alpha', alphabet=ALPHA_U[:8], n=3 if q else 4, fn='wrap',
                         ind='si', imax=1))
         out.append(dict(base, feat='nd', gen='symall', n=3 if q else 4, fn='wrap'))
+        out += std_tmpl_spaces(base, q, fn='wrap')
         if not q:
+            out += tmpl_spaces(base, ['sentence', 'paras', 'crlf'], fn='fill')
+            out += tmpl_spaces(dict(base, split='C3'), ['sentence', 'hyphens'], fn='wrap')
+            out += tmpl_spaces(dict(base, algo='O', wmax=1 << 16), ['short', 'longword', 'paras'], fn='wrap')
             out.append(dict(base, algo='O', sep='U', gen='alpha', alphabet=ALPHA_U, n=4, fn='fill'))
             out.append(dict(base, gen='sym1', n=6, fn='wrap', split='N', bw=False))
             out.append(dict(base, gen='sym1', n=4, fn='wrap', ind='both', imax=2))
